@@ -21,7 +21,7 @@ DESTRUCTORS = ["cond_free", "dir_free", "dirent_free", "err_free", "hash_free", 
                "mmap_free", "mutex_free", "prof_free", "rwlock_free", "rwlockg_free", "sa_free", "sem_free", "shm_free",
                "shmbuf_free", "sock_free", "spin_free", "str_free", "strlist_free", "thread_unref", "tls_free", "tree_free"]
 SYSCALLS = ["mmap", "ftruncate", "shm_open", "socket", "pthread_create", "pthread_key_create", "pthread_mutex_init",
-            "pthread_cond_init", "dlopen"]
+            "pthread_cond_init", "dlopen", "fcntl", "sem_open", "fcntl", "sem_open"]
 
 
 def call_pool(rng):
@@ -53,7 +53,7 @@ def call_pool(rng):
         "sock_connect %d %d %s" % (sl(), sl(), e()), "sock_connect_refused %d %s" % (sl(), e()), "sock_connect_timeout %d %s" % (sl(), e()),
         "sock_accept %d %d %s" % (sl(), sl(), e()), "sock_local %d %d %s" % (sl(), sl(), e()), "sock_remote %d %d %s" % (sl(), sl(), e()),
         "sock_udp_echo %d %d %s" % (sl(), sl(), e()), "sock_close %d %s" % (sl(), e()), "sock_free %d" % sl(), "sock_from_fd %d %s" % (sl(), e()),
-        "sem_new %d %d 0 %s" % (sl(), rng.randrange(3), e()), "sem_cycle %d %s" % (sl(), e()), "sem_own %d" % sl(), "sem_free %d" % sl(),
+        "sem_new %d %d %d %s" % (sl(), rng.randrange(3), rng.choice([0, 0, 1]), e()), "sem_cycle %d %s" % (sl(), e()), "sem_own %d" % sl(), "sem_free %d" % sl(),
         "shm_new %d %d %d %s" % (sl(), rng.randrange(3), rng.choice(SHM_SIZES), e()), "shm_own %d" % sl(), "shm_cycle %d %s" % (sl(), e()), "shm_free %d" % sl(),
         "shmbuf_new %d %d %d %s" % (sl(), 3 + rng.randrange(3), rng.choice(SHM_SIZES), e()), "shmbuf_rw %d %s" % (sl(), e()), "shmbuf_own %d" % sl(),
         "shmbuf_free %d" % sl(),
